@@ -11,7 +11,7 @@ from concurrent.futures import ThreadPoolExecutor
 RULE = ('the bus in-process (BusContext on debug-pipe, libdbus clients in the same process) with allocation failure injected only while the bus '
         'handles the target request: for prior states reached by random histories of Hello / RequestName / ReleaseName / AddMatch (contended names, '
         'queued owners, rules present) and target requests Hello, RequestName (all decision-table rows), ReleaseName (primary and queued), AddMatch, '
-        'RemoveMatch (held and not held), broadcast and unicast messages: every failing allocation index k (quick: up to 24 evenly spaced per target) '
+        'RemoveMatch (held and not held), broadcast and unicast messages, a method reply routed between two peers (followed by a retry or by the replier leaving): every failing allocation index k (quick: up to 24 evenly spaced per target) '
         'followed by an internal-state dump, a retry without fault, another dump and queue listings; TLC validates each run as a Bus.tla behaviour in '
         'which a faulted request is either the normal action or OomAbort; non-trivial = distinct (history, target, k)')
 CONF = '''<!DOCTYPE busconfig PUBLIC "-//freedesktop//DTD D-Bus Bus Configuration 1.0//EN" "http://www.freedesktop.org/standards/dbus/1.0/busconfig.dtd">
@@ -118,6 +118,21 @@ def run(ctx):
                 for k in ks:
                     retry = t.replace(' K ', ' -1 ')
                     jobs.append((h + [t.replace(' K ', ' %d ' % k), 'dump', retry, 'dump'] + ['1 -1 list %s' % nm for nm in NAMES], '%s | %s | k=%d' % (' ; '.join(h[3:]), t, k)))
+            # a reply routed between two peers: after the fault either the replier tries again (the reply must still be
+            # awaited and go through) or leaves (the caller must be told NoReply)
+            a, b = rng.sample([1, 2, 3], 2)
+            h2 = h + ['%d -1 call @%d Ma' % (a, b)]
+            t = '%d K reply %d' % (b, a)
+            out, rc, err = run_script(ctx.build, conf, h2 + [t.replace(' K ', ' -1 ')])
+            if rc != 0:
+                violations.append({'signature': 'crash:busoom', 'script': h2 + [t], 'stderr': err[-2000:]})
+                continue
+            last = json.loads(out.strip().splitlines()[-1])
+            n = max((o.get('allocs', 0) for ops in last['ops'] for o in ops), default=0)
+            ks = list(range(n)) if n <= maxk else sorted(set(int(i * (n - 1) / (maxk - 1)) for i in range(maxk)))
+            for k in ks:
+                after = [t.replace(' K ', ' -1 ')] if k % 2 == 0 else ['%d -1 drop' % b]
+                jobs.append((h2 + [t.replace(' K ', ' %d ' % k), 'dump'] + after + ['dump'], '%s | %s | k=%d' % (' ; '.join(h2[3:]), t, k)))
 
         def one(j):
             return run_script(ctx.build, conf, j[0])
